@@ -106,6 +106,18 @@ def judge_case(case):
             if got != allm:
                 fails.append(Failure(PROP, 'C10|sorted-mosfiles-not-numeric',
                                      f'sorted(MosFile objects) gives {got}, expected {allm}', allm, got))
+            # ... and with a COMPLETED running order (merged output read back) carrying an ID in the middle
+            r_ = ET.fromstring(docs[0])
+            mid_ = sorted(allm)[len(allm) // 2] if allm else 1
+            r_.find('messageID').text = str(mid_ * 10 + 5)
+            r_.append(ET.fromstring('<mosromgrmeta><roDelete><roID>x</roID></roDelete></mosromgrmeta>'))
+            objs2 = objs + [MosFile.from_string(ET.tostring(r_, encoding='unicode'))]
+            want2 = sorted(allm + [mid_ * 10 + 5])
+            got2 = [o.message_id for o in sorted(objs2)]
+            if got2 != want2:
+                fails.append(Failure(PROP, 'C10|sorted-mosfiles-with-completed-running-order-not-numeric',
+                                     f'sorted(MosFile objects incl. a completed running order) gives {got2}, '
+                                     f'expected {want2}', want2, got2))
             # the same messages addressed to three running orders (a directory of several)
             objs = []
             for n, i in enumerate(case['perms'][-1]):
